@@ -60,6 +60,9 @@ class Check(PropCheck):
                 for k, prev in enumerate(prevs):
                     if tier == 'thorough' or (sum(seq) + k) % 2 == 0:
                         yield Case({'toks': [ALPHA[i] for i in seq], 'rich': 0, 'via': 'direct', 'prev': prev}, 'exhaustive-reuse')
+                    if n <= 2 or tier == 'thorough' or (sum(seq) + k) % 5 == 0:
+                        yield Case({'toks': [ALPHA[i] for i in seq], 'rich': 0, 'via': 'direct', 'prev': prev, 'entry': 'feed-fresh'},
+                                   'exhaustive-other-object')
         gen = c02.Check()
         n = 6000 if tier == 'thorough' else 800
         for i in range(n):
@@ -115,7 +118,8 @@ class Check(PropCheck):
         err, left = classify(toks)
         fs = ['via:' + d['via'], 'class:' + (err or ('left-open' if left else 'well-formed'))]
         if d.get('prev') is not None:
-            fs.append('reused-parser')
+            fs.append('earlier-document-on-another-object' if d.get('entry') == 'feed-fresh' else 'reused-parser')
+        fs.append('entry:' + d.get('entry', 'parseStr'))
         _, mode, _ = c02.spec_doc(toks)
         fs.append('mode:' + mode)
         return fs
@@ -138,15 +142,28 @@ class Check(PropCheck):
     def encode(self, d):
         return parsing.toks_sx(parsing.tokenize(self.text_of(d)))
 
-    def run_one(self, cls, text, prev_text=None):
+    def run_one(self, cls, text, prev_text=None, entry='parseStr'):
         p = cls()
-        if prev_text is not None:
+        if entry == 'feed-fresh':
+            # feed() on a new object (no reset involved); the earlier document went through feed() on ANOTHER new object of
+            # the class and through createElementFromHTML: what one parser holds open is nobody else's business
+            if prev_text is not None:
+                for fn in (lambda: cls().feed(prev_text), lambda: cls.createElementFromHTML(prev_text)):
+                    try:
+                        fn()
+                    except Exception:        # noqa
+                        pass
+            p = cls()
+        elif prev_text is not None:
             try:
                 p.parseStr(prev_text)
             except Exception:        # noqa
                 pass
         try:
-            p.parseStr(text)
+            if entry == 'feed-fresh':
+                p.feed(text)
+            else:
+                p.parseStr(text)
         except Exception as e:        # noqa
             return sx('raise', type(e).__name__), None
         root = p.getRoot()
@@ -157,8 +174,8 @@ class Check(PropCheck):
         import AdvancedHTMLParser as A
         text = self.text_of(d)
         prev = c02.render(d['prev'], 0) if d.get('prev') is not None else None
-        v, _ = self.run_one(A.ValidatingAdvancedHTMLParser, text, prev)
-        p, _ = self.run_one(A.AdvancedHTMLParser, text, prev)
+        v, _ = self.run_one(A.ValidatingAdvancedHTMLParser, text, prev, d.get('entry', 'parseStr'))
+        p, _ = self.run_one(A.AdvancedHTMLParser, text, prev, d.get('entry', 'parseStr'))
         return sx(v, p)
 
     def oracle(self, d):
@@ -168,13 +185,20 @@ class Check(PropCheck):
         err, left = classify(toks)
         v = A.ValidatingAdvancedHTMLParser()
         raised = None
+        fresh_feed = d.get('entry') == 'feed-fresh'
         if d.get('prev') is not None:
-            try:
-                v.parseStr(c02.render(d['prev'], 0))
-            except Exception:        # noqa
-                pass
+            pt = c02.render(d['prev'], 0)
+            for fn in ((lambda: A.ValidatingAdvancedHTMLParser().feed(pt), lambda: A.ValidatingAdvancedHTMLParser.createElementFromHTML(pt))
+                       if fresh_feed else (lambda: v.parseStr(pt),)):
+                try:
+                    fn()
+                except Exception:        # noqa
+                    pass
         try:
-            v.parseStr(text)
+            if fresh_feed:
+                v.feed(text)
+            else:
+                v.parseStr(text)
         except Exception as e:        # noqa
             raised = type(e).__name__
         if d['via'] == 'html' and raised is not None:
